@@ -177,6 +177,31 @@ fn tuples(seed: u64, tier: Tier) -> (Vec<Tuple>, Vec<Tuple>) {
     (lib, ffi)
 }
 
+/// the caller's output buffer is the same memory as the salt (or password): the value must still be RFC 7914 of the ORIGINAL inputs
+fn ffi_overlap_case(rep: &Report, ffi: &Ffi, t: &Tuple, over_salt: bool) {
+    rep.eval(1);
+    let want = r::scrypt(&t.pw, &t.salt, t.n as u64, t.r as u64, t.p as u64, t.dk);
+    let mut pw = t.pw.clone();
+    let mut salt = t.salt.clone();
+    let res = guarded(|| unsafe {
+        if over_salt {
+            let p = salt.as_mut_ptr();
+            (ffi.f)(pw.as_ptr(), pw.len(), p as *const u8, salt.len(), t.n, t.r, t.p, p, t.dk);
+        } else {
+            let p = pw.as_mut_ptr();
+            (ffi.f)(p as *const u8, pw.len(), salt.as_ptr(), salt.len(), t.n, t.r, t.p, p, t.dk);
+        }
+    });
+    let got = if over_salt { &salt[..t.dk] } else { &pw[..t.dk] };
+    let mut j = t.json("ffi-overlap");
+    j["over"] = json!(if over_salt { "salt" } else { "password" });
+    if res.is_err() {
+        rep.violation("ffi/panic", j, format!("exported scrypt panicked with output overlapping an input ({})", t.descr()));
+    } else if got != &want[..] {
+        rep.violation("ffi/overlap-value-differs", j, format!("exported C scrypt with the output buffer overlapping the {} wrote a value different from RFC 7914 of the original inputs ({})", if over_salt { "salt" } else { "password" }, t.descr()));
+    }
+}
+
 pub fn run(rep: &'static Report) {
     let seed = rep.seed;
     rep.set_rule("E-GRID vs OpenSSL EVP_PBE_scrypt: full product N x r x p x dkLen, each axis swept completely with the others small, corner tuples, password/salt length grid incl. 0/63/64/65 and trailing-NUL variants; every tuple through the library and through the exported C function (dlopen of the cdylib built from the working tree) with guard bytes around all buffers. distinct non-trivial = distinct (via, password, salt, N, r, p, dkLen) tuples");
@@ -191,6 +216,16 @@ pub fn run(rep: &'static Report) {
         ffi_case(rep, &ffi, t);
         rep.nontrivial(format!("ffi-{:?}", t).as_bytes());
     });
+    // aliasing: output buffer == salt buffer / password buffer (dk_len <= that input's length)
+    let mut n_over = 0;
+    for (pl, sl, dk) in [(40usize, 40usize, 32usize), (64, 33, 33), (100, 100, 64), (32, 16, 16)] {
+        let t = Tuple { pw: derive(seed, "c18-ov-pw", pl), salt: derive(seed, "c18-ov-salt", sl), n: 16, r: 2, p: 1, dk };
+        ffi_overlap_case(rep, &ffi, &t, true);
+        ffi_overlap_case(rep, &ffi, &t, false);
+        rep.nontrivial(format!("ffi-overlap-{}-{}-{}", pl, sl, dk).as_bytes());
+        n_over += 2;
+    }
+    rep.extra("ffi_overlap_cases", json!(n_over));
     rep.extra("library_tuples", json!(lib.len()));
     rep.extra("ffi_tuples", json!(ffi_t.len()));
     rep.sample(lib[lib.len() / 2].json("lib"));
@@ -208,6 +243,10 @@ pub fn replay(rep: &'static Report, case: &Value) {
         p: case["p"].as_u64().unwrap() as u32,
         dk: case["dk"].as_u64().unwrap() as usize,
     };
+    if case["via"] == "ffi-overlap" {
+        ffi_overlap_case(rep, &Ffi::load(), &t, case["over"] == "salt");
+        return;
+    }
     if case["via"] == "ffi" {
         ffi_case(rep, &Ffi::load(), &t);
     } else {
